@@ -30,6 +30,8 @@ def value_alphabet():
         ('datetime-utc', 'datetime', dt(2020, 1, 2, 3, 4, 5, tzinfo=TZ(0))),
         ('datetime-east', 'datetime', dt(2020, 1, 2, 3, 4, 5, tzinfo=TZ(5, 30))),
         ('datetime-east', 'datetime', dt(2020, 1, 2, 3, 4, 5, tzinfo=TZ(14))),
+        ('datetime-same-instant', 'datetime', dt(2020, 1, 2, 8, 34, 5, tzinfo=TZ(5, 30))),      # == 03:04:05+00:00 above
+        ('datetime-same-instant', 'datetime', dt(2020, 1, 1, 22, 4, 5, tzinfo=TZ(-5))),
         ('datetime-west', 'datetime', dt(2020, 1, 2, 3, 4, 5, tzinfo=TZ(-5))),
         ('datetime-west', 'datetime', dt(2020, 1, 2, 3, 4, 5, tzinfo=datetime.timezone(datetime.timedelta(minutes=-30)))),
         ('datetime-named-zone', 'datetime', dt(2020, 1, 2, 3, 4, 5, tzinfo=datetime.timezone(datetime.timedelta(hours=1), 'IST'))),
@@ -137,7 +139,7 @@ def value_batch(batch):
 
 
 # ---- part B: histories --------------------------------------------------------------------------
-OPS = ['run', 'rm c1', 'rm c2', 'rm both', 'failing-run:src', 'failing-run:B', 'failing-run:C']
+OPS = ['run', 'run:v2', 'rm c1', 'rm c2', 'rm both', 'failing-run:src', 'failing-run:B', 'failing-run:C']
 
 
 class PlannedFailure(Exception):
@@ -152,7 +154,7 @@ def _chain(e):
     return seen
 
 
-def history_flow(root, counters, fail=None):
+def history_flow(root, counters, fail=None, version=1):
     """fail: None, or the place where this run breaks while rows are flowing: 'src' (the source, on its second row),
     'B' (between the checkpoints, on the first row) or 'C' (after the last checkpoint, on the last resource)."""
     def counting(name):
@@ -175,9 +177,13 @@ def history_flow(root, counters, fail=None):
         counters['src'] += 1
         if fail == 'src' and counters['src'] == 2:
             raise PlannedFailure('the source fails on its second row')
-    st = mkstate([('t', [('id', 'integer'), ('when', 'datetime'), ('amt', 'number')],
-                   [{'id': 1, 'when': datetime.datetime(2020, 1, 1, 1, 1, 1), 'amt': D('1.50')},
-                    {'id': 2, 'when': None, 'amt': D('-3')}]),
+    t_fields = [('id', 'integer'), ('when', 'datetime'), ('amt', 'number')]
+    t_rows = [{'id': 1, 'when': datetime.datetime(2020, 1, 1, 1, 1, 1), 'amt': D('1.50')}, {'id': 2, 'when': None, 'amt': D('-3')}]
+    if version == 2:
+        # the sources have changed since (another field, other values, another row)
+        t_fields = t_fields + [('extra', 'string')]
+        t_rows = [dict(r, extra='e%d' % r['id'], amt=D('7')) for r in t_rows] + [{'id': 3, 'when': None, 'amt': None, 'extra': None}]
+    st = mkstate([('t', t_fields, t_rows),
                   ('e', [('x', 'string')], []),
                   ('u', [('x', 'string')], [{'x': 'é'}])])
     def bump(row):
@@ -197,7 +203,7 @@ def explore_histories(depth):
     out = {'n': 0, 'keys': [], 'outcomes': {}, 'viol': [], 'states': 0, 'transitions': 0, 'traces': 0}
     with core.scratch_dir() as d:
         root = os.path.join(d, 'cp')
-        ref = None
+        refs = {}
         seen = {}
         frontier = collections.deque()
         empty = ({}, frozenset())
@@ -215,17 +221,27 @@ def explore_histories(depth):
                 label = ' ; '.join(hist + [op])
                 out['transitions'] += 1
                 out['n'] += 1
-                if op == 'run':
+                if op in ('run', 'run:v2'):
                     counters = collections.Counter()
+                    ver = 2 if op == 'run:v2' else 1
+
+                    def holds(name):
+                        # which version of the sources a checkpoint was computed from (label only)
+                        with open(os.path.join(root, name, 'stream.ndjson')) as fh:
+                            return 2 if '"extra"' in fh.readline() else 1
+                    eff = holds('c2') if has2 else (holds('c1') if has1 else ver)
                     try:
-                        res = history_flow(root, counters).results()
+                        res = history_flow(root, counters, version=ver).results()
                     except Exception as e:
                         out['viol'].append(('history-raises/%d%d' % (has1, has2), 'history [%s]: run raises %s: %s' %
                                             (label, core.exc_sig(e), str(e)[:100]), {'part': 'history', 'hist': hist + [op]}))
                         continue
-                    if ref is None:
-                        ref = res
-                    exp = {'src': 0 if (has1 or has2) else 3, 'A': 0 if (has1 or has2) else 1, 'B': 0 if has2 else 1, 'C': 1}
+                    if refs.get(eff) is None:
+                        with core.scratch_dir() as d2:
+                            refs[eff] = history_flow(os.path.join(d2, 'ref'), collections.Counter(), version=eff).results()
+                    ref = refs[eff]
+                    nsrc = 4 if ver == 2 else 3
+                    exp = {'src': 0 if (has1 or has2) else nsrc, 'A': 0 if (has1 or has2) else 1, 'B': 0 if has2 else 1, 'C': 1}
                     got = {k: counters[k] for k in exp}
                     if got != exp:
                         out['viol'].append(('history-executes/%d%d' % (has1, has2),
@@ -233,8 +249,9 @@ def explore_histories(depth):
                                             (label, 'present' if has1 else 'absent', 'present' if has2 else 'absent', got, exp),
                                             {'part': 'history', 'hist': hist + [op]}))
                     if not rows_eq(res[0], ref[0]) or res[1].descriptor != ref[1].descriptor:
-                        out['viol'].append(('history-differs/%d%d' % (has1, has2), 'history [%s]: run result differs from '
-                                            'the first run' % label, {'part': 'history', 'hist': hist + [op]}))
+                        out['viol'].append(('history-differs/%d%d' % (has1, has2), 'history [%s]: the run does not return what the '
+                                            'sources of version %d give (the version its nearest checkpoint was computed from, or '
+                                            'the current one without a checkpoint)' % (label, eff), {'part': 'history', 'hist': hist + [op]}))
                     out['outcomes']['run:c1=%d,c2=%d' % (has1, has2)] = out['outcomes'].get('run:c1=%d,c2=%d' % (has1, has2), 0) + 1
                 elif op.startswith('failing-run'):
                     # a run that breaks while rows are flowing must not leave anything a later run would resume from:
